@@ -52,7 +52,7 @@ HARNESS_PKGS = {
 }
 
 
-def make_overlay(name, harness=(), engines=(), rt=False, rewrite_sync=(), extra=None, rewrite_harness=()):
+def make_overlay(name, harness=(), engines=(), rt=False, rewrite_sync=(), extra=None, rewrite_harness=(), vsync_pkg='vsync'):
     """Write build/<name>.overlay.json and return its path.
 
     harness: names from HARNESS_PKGS; every *.go below /verif/harness/<name>/ is
@@ -88,14 +88,14 @@ def make_overlay(name, harness=(), engines=(), rt=False, rewrite_sync=(), extra=
         for rel in rewrite_sync:
             src = os.path.join(REPO, rel)
             out = os.path.join(outdir, rel.replace('/', '__') + '.txt')
-            rewrite.rewrite_file(src, out)
+            rewrite.rewrite_file(src, out, vsync_pkg)
             repl[src] = out
     for h, f in rewrite_harness:
         import rewrite
         outdir = os.path.join(BUILD, 'rewrite-' + name)
         os.makedirs(outdir, exist_ok=True)
         out = os.path.join(outdir, 'harness__%s__%s.txt' % (h, f))
-        rewrite.rewrite_file(os.path.join(VERIF, 'harness', h, f), out)
+        rewrite.rewrite_file(os.path.join(VERIF, 'harness', h, f), out, vsync_pkg)
         repl[os.path.join(os.path.normpath(os.path.join(REPO, HARNESS_PKGS[h])), 'zz_verif_' + f)] = out
     if extra:
         repl.update(extra)
